@@ -18,6 +18,14 @@ CHECKS = {
         note='Times are passed through (oracle only). Separators other than the default are not modelled.',
         technique='Lean 4 proof (case analysis + omega + kernel decide) over a hand model; exhaustive differential correspondence',
         design='5 C01'),
+    'C02': dict(
+        text='One decision theorem over all integer lists (any length, any magnitude, negatives): from_bytes returns a valid '
+             'message re-encoding to exactly the input iff the input satisfies an independent MIDI 1.0 grammar, else ValueError; '
+             'over arbitrary Python items only ValueError or (with a non-integer present) TypeError. Correspondence exhaustive '
+             'over every byte string of length 0..2 (quick) / 0..3 (thorough, 16.8 M), plus malformed items, sysex shapes, from_hex.',
+        note='Python sequence equality is the meaning of "reproduce the input"; iterators without len() are outside.',
+        technique='Lean 4 proof (decision-logic theorem, case analysis + omega) over a hand model; exhaustive differential correspondence',
+        design='5 C02'),
 }
 
 PENDING = ['C02', 'C03', 'C04', 'C05', 'C06', 'C07', 'C08', 'C09', 'C10', 'C11', 'C12', 'C13', 'C14', 'C15',
